@@ -39,7 +39,7 @@ struct Fixture {
         try {
             if (nx) parse_XTA(utap_builtin_declarations(), &b, true, S_DECLARATION, "");
             parse_XTA(nx ? DECLS : "int i; int j; clock x; chan c; int arr[3]; const K 2;", &b, nx, S_DECLARATION, "/nta/declaration");
-            parse_XTA("process TT(int tp) { state A, B; init A; trans A -> B { guard tp > 0; }; }", &b, nx, S_XTA_PROCESS, "/p");
+            parse_XTA("process TT(int tp) { state A { tp > 0 }, B; init A; }", &b, nx, S_XTA_PROCESS, "/p");   // no edge: the edge around a label under test is the builder's first
         } catch (std::exception&) {}
     }
 };
@@ -50,12 +50,14 @@ static void run_document_backend(Fixture& fx, const Entry& en, const std::string
     vf_budget(BUDGET);
     const char* outcome = "returned";
     bool edge_ctx = en.part == S_GUARD || en.part == S_ASSIGN || en.part == S_SYNC || en.part == S_SELECT || en.part == S_PROBABILITY;
+    // the edge around an edge label may itself have failed to be added (unknown source, target of the wrong kind): the reader still parses its labels
+    int ends = edge_ctx ? vf_pick("!edge_ends", 3) : 0;
     bool proc_ctx = edge_ctx || en.part == S_INVARIANT || en.part == S_EXPONENTIAL_RATE || en.part == S_LOCAL_DECL || en.part == S_PARAMETERS;
     try {
         // labels are parsed between the callbacks the XML reader issues around them
         if (en.part == S_PARAMETERS) { parse_XTA(text.c_str(), &b, nx, en.part, "/x"); b.proc_begin("P2"); }
         else if (proc_ctx) { b.proc_begin("P2"); b.proc_location("L0", false, false); b.proc_location("L1", false, false); }
-        if (edge_ctx) b.proc_edge_begin("L0", "L1", true, "");
+        if (edge_ctx) b.proc_edge_begin(ends == 1 ? "nope" : "L0", ends == 2 ? "i" : "L1", true, "");
         if (en.part != S_PARAMETERS) parse_XTA(text.c_str(), &b, nx, en.part, "/x");
         if (en.part == S_INVARIANT || en.part == S_EXPONENTIAL_RATE) b.proc_location("L2", en.part == S_INVARIANT && !doc.has_errors(), en.part == S_EXPONENTIAL_RATE && !doc.has_errors());
         // a second, valid block with the same builder
